@@ -102,7 +102,7 @@ def parse_fields_warning(msg):
 
 def result_json(it, w, err, warnings=()):
     if err is not None:
-        return json.dumps({'err': err}, sort_keys=True, ensure_ascii=False, separators=(',', ':'))
+        return json.dumps({'err': err}, sort_keys=True, ensure_ascii=False, separators=(',', ':'), default=repr)
     own = it.get_warnings()
     warn_a = parse_fields_warning(own[0]) if own else None
     rest = list(warnings)[len(own):]
@@ -113,7 +113,7 @@ def result_json(it, w, err, warnings=()):
          'afterRefusal': w.after_refusal, 'finished': w.finished, 'warnA': warn_a, 'warnB': warn_b}
     if other:
         d['otherWarnings'] = other
-    return json.dumps(d, sort_keys=True, ensure_ascii=False, separators=(',', ':'))
+    return json.dumps(d, sort_keys=True, ensure_ascii=False, separators=(',', ':'), default=repr)
 
 
 def op_query(payload):
